@@ -219,6 +219,8 @@ def run(ck):
     ck.rule("C17.R2", "exactly one span callsite/construction with the configured metadata", floor=FLOOR_FNS)
     ck.rule("C17.R3", "body (each poll) runs inside the span; guard outlives the body; ret/err events inside", floor=FLOOR_FNS)
     ck.rule("C17.R4", "the expansion's prelude only reads parameters", floor=FLOOR_FNS)
+    ck.rule("C17.R6", "what the body observes about its caller is unchanged: in a #[track_caller] function the body's Location::caller() still runs in a frame "
+            "that inherits the attribute (the function itself, not a closure the expansion wrapped it in)", floor=2)
     ck.rule("C17.R5", "each span field carries its value the configured way: `?` through field::debug, `%` through field::display, "
             "otherwise the value itself, a bare name empty", floor=5)
     if len(expect) < FLOOR_FNS:
@@ -238,6 +240,8 @@ def run(ck):
         r4(ck, F, name, exp, car, A)
         if exp.get("kinds"):
             r5(ck, F, name, exp, car)
+        if exp.get("track_caller"):
+            r6(ck, F, name, exp, fn)
     r3_lib(ck, L)
 
 
@@ -497,6 +501,25 @@ def span_value_kinds(F, car):
     if len(kinds) != len(names[0]):
         return None, "%d values for %d fields" % (len(kinds), len(names[0]))
     return dict(zip(names[0], kinds)), None
+
+
+def r6(ck, F, name, exp, fn):
+    b = F.body(fn) if isinstance(fn, str) else fn
+    if b is None:
+        return
+    key = "%s: Location::caller() of the body runs in the #[track_caller] function itself" % name
+    LOC = "core::panic::location::Location::<'a>::caller"
+    own = [bb for bb, t in b.calls() if t["callee"].get("path") == LOC]
+    inner = [(c.path, bb) for c in F.closures_of(b) for bb, t in c.calls() if t["callee"].get("path") == LOC]
+    if not b.raw.get("track_caller"):
+        ck.bad("C17.R6", key, where(b.raw["sp"]), "the instrumented function lost #[track_caller]", fn=b.path)
+    elif inner:
+        ck.bad("C17.R6", key, where(b.raw["sp"]), "the body was moved into %s, which does not inherit #[track_caller]: Location::caller() there is a line inside the "
+               "instrumented function, not the caller's -- the returned value / panic payload differs from the uninstrumented function's" % inner[0][0].rsplit("::", 1)[-1], fn=b.path)
+    elif own:
+        ck.ok("C17.R6", key, fn=b.path)
+    else:
+        ck.bad("C17.R6", key, where(b.raw["sp"]), "no Location::caller() call found in the expansion of a fixture that has one", fn=b.path)
 
 
 def r5(ck, F, name, exp, car):
